@@ -42,6 +42,15 @@ Theorem C12_refused_noop : forall W st o st' e,
 Proof. exact refused_noop. Qed.
 Print Assumptions C12_refused_noop.
 
+(* ... and the call-keyword form n(x=b): a TypeError / ChannelConnectionError /
+   AmbiguousOutputError / AttributeError can only be the refusal (the pull that follows an accepted
+   connection raises nothing but CircularDataFlowError / ValueError / KeyError), and leaves everything as it was. *)
+Theorem C12_refused_call_noop : forall W st n k v tree st' e,
+  step W st (OCall n [(k, v)] tree) = (st', Err e) ->
+  e = TypeErr \/ e = ConnErr \/ e = AmbigErr \/ e = AttrErr -> st' = st.
+Proof. exact refused_call_noop. Qed.
+Print Assumptions C12_refused_call_noop.
+
 (* a.connect(b1, ..., bk): if bi is the first refused one, the result is exactly the store
    after connecting b1 .. b(i-1): the refused connection itself contributes nothing. *)
 Theorem C12_refused_prefix : forall W s a pre b post s1 e,
